@@ -37,8 +37,13 @@ def dependency_units(pid):
         'C07': [wlock, wpkt, ('read-frame', lambda: c01.ReadFrame()), ('read-segmentation', lambda: c01.Segmentation())],
         'C05': [order, wlock, wpkt, frame, ('read-frame', lambda: c01.ReadFrame()), ('Position.send', lambda: c04.PositionSend()), ('Position.any-word', lambda: c04.PositionAnyWord()),
                 ('ChunkSectionPos', lambda: c04.SectionPos()), ('BlockRecord', lambda: c04.BlockRecord()),
-                ('flag-names', lambda: c20.Flags())],
-        'C06': [order, ('context-holds-a-protocol-number', lambda: c09.InitVersions())],
+                ('flag-names', lambda: c20.Flags()),
+                # "every supported version" includes one registered at run time: the comparisons every codec makes read
+                # tables that the importing modules hold by reference, so a re-initialisation must refill them in place
+                ('tables-shared-by-reference', lambda: c08.InitGlobalsBounded())],
+        'C06': [order, ('context-holds-a-protocol-number', lambda: c09.InitVersions()),
+            # the table a reactor decodes with is built at construction: connect() must build it after the context is updated
+            ('reactor-built-for-the-context-version', lambda: c09.ConnectShape()), life, connect, wpkt],
         'C09': [life, connect, string, trail, wpkt],
         'C10': [hsh, frame, string, trail, vread, gendef, switch, wpkt],
         'C11': [wpkt, life, order, connect, shape],
